@@ -104,4 +104,32 @@ inductive AllSame : List Tok → List Tok → Prop where
   | nil : AllSame [] []
   | cons {a b : Tok} {as bs : List Tok} : sameTexts a b → AllSame as bs → AllSame (a :: as) (b :: bs)
 
+/-- what `update` needs of a generated text so that it is read back as the code of its block: it
+ends in LF (otherwise the closing fence is glued to its last line) and its first line is not a
+comment (otherwise that line is read as one of the comment lines in front of the code).  Every
+text of `generate_testcase` starts with `$ ` and ends in LF. -/
+def GenOK (g : List Char) : Prop :=
+  g.getLast? = some '\n' ∧ (splitLines g).head?.map isComment = some false
+
+/-- `Reread gens k toks toks'`: the token stream `toks'` of the updated document against the token
+stream `toks` of the original (outcomes from `k` on): the same tokens in the same order, with the
+same texts outside scrut blocks; a scrut block keeps language, the configuration as `update` writes
+it, and the comment lines; a block without code stays without code, the code lines of any other
+block are the lines of the text generated for its outcome. -/
+inductive Reread (gens : List (Option (List Char))) : Nat → List Tok → List Tok → Prop where
+  | nil (k) : Reread gens k [] []
+  | line (k i i' l r r') : Reread gens k r r' → Reread gens k (.line i l :: r) (.line i' l :: r')
+  | front (k ls ls' r r') : ls'.map (·.2) = ls.map (·.2) → Reread gens k r r' →
+      Reread gens k (.docConfig ls :: r) (.docConfig ls' :: r')
+  | verbatim (k s s' lang ls r r') : Reread gens k r r' →
+      Reread gens k (.verbatim s lang ls :: r) (.verbatim s' lang ls :: r')
+  | testNoCode (k lang cfg cfg' cm cm' r r') :
+      configSuffix cfg' = configSuffix cfg → cm'.map (·.2) = cm.map (·.2) → Reread gens k r r' →
+      Reread gens k (.test lang cfg cm [] :: r) (.test lang cfg' cm' [] :: r')
+  | testCode (k lang cfg cfg' cm cm' cd cd' g r r') :
+      cd ≠ [] → gens[k]? = some (some g) →
+      configSuffix cfg' = configSuffix cfg → cm'.map (·.2) = cm.map (·.2) →
+      cd'.map (·.2) = splitLines g → cd' ≠ [] → Reread gens (k + 1) r r' →
+      Reread gens k (.test lang cfg cm cd :: r) (.test lang cfg' cm' cd' :: r')
+
 end Scrut.Update
